@@ -31,9 +31,15 @@ CHECKS = {
  "C08": ("exploration", "property-based testing over generated projects (tape-driven model-first generator, proptest shrinking), each compiled by a fresh process of the real CLI; exit status / signal oracle",
          "Generated valid projects of five feature tiers, single-fault mutants, raw token damage of schema / extension / sources and cyclic client fields are compiled by fresh isograph_cli processes; the process must exit 0 (iso.ts written) or 1 (diagnostics), never panic, abort or be killed by a signal. 1k projects quick, 80k thorough; recorded crash families are tolerated by root-cause signature only.",
          "The watch-mode clause is covered by C20's driver (panics there carry a C08-style signature); isograph_cli is the debug build of the working tree; a process exceeding 120 s is inconclusive.", "5/C08"),
+ "C09": ("exploration", "property-based testing over generated projects (tape-driven model-first generator, proptest shrinking) compiled in-process; artifacts read as data with swc (tsread); oracle = the independent GraphQL front end refgql (parse + June-2018 validation rules)",
+         "Accepted generated projects of four tiers (literal / variable / enum / null / object arguments, big and negative ints, odd strings, nested variables, abstract types, pointers, @loadable, __refetch, @exposeField) and the four checked-in projects; every operation the runtime can reach (cooked default export of query_text.ts / refetch query texts / persisted document) is parsed and validated by refgql against the schema built from the very SDL given to the compiler. 4k programs (about 5600 operations) quick, 120k thorough.",
+         "relay's parse_executable is a logged second opinion; negative ints are excluded by construction in 3/4 of the cases (recorded finding, counted); three recorded design limitations tolerated by signature.", "5/C09"),
  "C10": ("exploration", "property-based testing with the repository's real TypeScript runtime (libs/isograph-react/src/core under node 22) as the oracle",
          "Accepted generated programs x 3-5 generated conforming responses per entrypoint (values per type, nulls where nullable, lists of 0..3, a concrete type per abstract position, ids from a small pool so entities are reached along several paths): the real runtime normalizes the response with the entrypoint's normalization AST and reads the entrypoint reader and every component reader the runtime reaches; any MissingData or exception is a violation. 400 programs (about 1700 responses) quick, 20000 programs thorough.",
          "Needs node 22 (exit 2 when absent). Project resolvers return null as in the generated sources; client-pointer targets and loadable fields are boundaries; responses come from a consistent world; five recorded root causes are excluded by construction in 4 of 5 programs and tolerated in the rest.", "5/C10"),
+ "C11": ("exploration", "property-based testing over generated projects (tape-driven model-first generator, proptest shrinking) compiled in-process; artifacts read as data with swc (tsread); oracle = tree isomorphism between the refgql AST of the cooked operation text and the evaluated normalization AST",
+         "Same domain as C09, for the entrypoint and every refetch artifact: each selection set matched as a multiset, arguments by name and kind (Literal / String / Enum / Object / Variable), inline-fragment types, Linked vs Scalar against the schema, concreteType exactly when the field's type is an object type. 4k programs quick, 120k thorough.",
+         "Sibling order and isFallible are not asserted; two recorded deviations for abstract types (present in the checked-in pet-demo) tolerated by signature.", "5/C11"),
  "C12": ("exploration", "property-based testing + differential testing against the repository's TypeScript runtime executed under node 22",
          "Unit level: generated selections and pairs through normalization_alias, the compiler's emitted argument text (hook) and the runtime's getNetworkResponseKey: injectivity on pairs, legality of every key as a GraphQL name, compiler key == runtime key; every writable selection is also round-tripped through the real iso parser; project level: in every selection set of every operation of 300 compiled programs equal response keys mean equal (field, arguments) and each key equals the runtime key of the matching normalization-AST node. 62.5k unit cases + 300 programs quick, 1.6M + 10000 thorough.",
          "Needs node 22 (exit 2 when absent). Astral characters / float / enum values are API-level inputs the iso lexer cannot write. Six recorded root causes are tolerated one signature at a time.", "5/C12"),
@@ -43,6 +49,9 @@ CHECKS = {
  "C14": ("exploration", "metamorphic property-based testing: same files, fresh processes (fresh hash seeds), opposite creation order + decoy files; byte equality of artifact trees and diagnostics",
          "Generated valid projects, multi-fault invalid projects (several diagnostics) and the four checked-in projects are each compiled three times by fresh CLI processes in two layouts; artifact trees and normalised stderr must be identical. 160 generated projects quick, 12k thorough.",
          "tmpfs enumeration order depends on creation order (that is what varies discovery order); timing phrases and the scratch directory name are removed from stderr; cases on which the compiler crashes are skipped (C08).", "5/C14"),
+ "C15": ("exploration", "metamorphic property-based testing over pairs of generated projects (permute selection sets / repeat a selection under another alias / extract part of a selection set into a fresh client field with variables threaded through)",
+         "For every entrypoint the multiset of (cooked operation text, normalization AST) pairs - entrypoint query plus refetch queries - must be identical in P and its variant. 4k pairs quick, 120k thorough.",
+         "Pairs in which either program is not accepted are skipped and counted.", "5/C15"),
  "C16": ("exploration", "property-based testing with single-fault mutation operators decided by the project model; accept/reject oracle on in-process compiles",
          "Valid programs of the core/client-graph tiers must compile without diagnostics; mutants violating exactly one rule of the statement (10 operators) at a model-chosen location must be rejected with a diagnostic. 6k programs quick, 300k thorough.",
          "The 'generated language subset' is what G-PROJECT emits in those tiers (written into the evidence); list-typed variables are excluded by construction (recorded finding); compiler crashes are C08's business.", "5/C16"),
@@ -70,6 +79,15 @@ CHECKS = {
  "C24": ("exploration", "property-based testing over generated projects; hand model of the TypeScript conditional/template-literal type of iso.ts, verified against the file's shape on every run",
          "Accepted generated programs whose type/field names are prefixes of one another, with literal headers re-laid-out (whitespace kinds, spaces around the dot, leading whitespace), and the four checked-in projects: the first overload whose pattern is a prefix of the whitespace-stripped literal must exist and belong to the same declaration. 4k programs quick.",
          "No TypeScript compiler exists offline: tsc's overload resolution is modelled by hand (assumption text in the evidence); if iso.ts stops having the modelled shape the check is inconclusive, not failing.", "5/C24"),
+ "C25": ("exploration", "property-based testing over generated projects (tape-driven model-first generator, proptest shrinking) compiled in-process; artifacts read as data with swc (tsread); oracle = following the module graph as read.ts does, with position tracking through the entrypoint operation (model)",
+         "Refetch-heavy generated programs (advanced tiers, __refetch / @loadable / exposed fields / pointers reused by several parents and entrypoints) and the checked-in projects: every usedRefetchQueries / refetchQueryIndex reference must be in range and select the __refetch__N artifact generated for that field at that position (operation name, wrapper, type condition, inner selection = the sub-tree at that position). 6k programs (about 6600 references) quick, 180k thorough.",
+         "Below a client pointer, or when a variable cannot be resolved, only index, operation name and wrapper are judged (about 25% of references).", "5/C25"),
+ "C26": ("exploration", "property-based testing over generated projects (tape-driven model-first generator, proptest shrinking) compiled in-process; artifacts read as data with swc (tsread); oracle = independent md-5 / sha2 hashing + refgql token streams of the persisted-on and persisted-off builds",
+         "Generated and checked-in programs x {md5, sha256} x extra info x custom file name: every operationId is a key of the persisted-documents file, hash(document) equals the key, the document's token stream equals that of the non-persisted build's operation, and the key set equals the referenced id set. 4k (program, configuration) cases quick, 120k thorough.",
+         "The custom file name always ends in .json; extraInfo is not judged.", "5/C26"),
+ "C27": ("exploration", "property-based testing over generated projects (tape-driven model-first generator, proptest shrinking) compiled in-process; artifacts read as data with swc (tsread); oracle = the project model and the schema (param types) / the refgql AST of the operation and the schema (raw response types)",
+         "param_type.ts: exactly one property per selection named by alias-or-name, recursively; | null iff the schema type is nullable at every list level; ReadonlyArray nesting equals list nesting. raw_response_type.ts: the key tree with list depth equals the one derived from the operation and the schema, per type condition. 4k programs (about 11k param types, 4.6k raw types) quick, 120k thorough.",
+         "Leaf scalar types, optional markers and output / parameters types are not judged; selections of the checked-in projects come from the reader AST.", "5/C27"),
  "C28": ("exploration", "differential property-based testing: the plugin's visitor run in-process vs the compiler's parse of the same literal; modules compared through swc codegen",
          "Accepted literal headers x {commonjs, esmodule} x project / artifact-directory shapes x file depths: classification equals the compiler's, entrypoints import the relative path of <artifact_dir>/__isograph/<Type>/<Name>/entrypoint.ts with Type and Name from the compiler's AST, field / pointer calls become their function argument, other code unchanged. 25000 cases quick, 500000 thorough.",
          "swc parser / codegen trusted; virtual paths (no file system).", "5/C28"),
